@@ -11,7 +11,7 @@ TECH = "bounded symbolic execution of the real Rust source (Kani 0.68 proof harn
 CLAIMS = {
  "C01": ("Deterministic clauses only: for every estimator state within the per-harness bounds CBMC decides lower_bound(s) <= estimate <= upper_bound(s) and nesting in s for HLL (HIP path for any accumulator value, coupon mode for any interpolation value, the real error tables / formula for every lg_k 4..=21: sign, nesting, out-of-order interval at least as wide as the in-order one, advertised RSE constants sqrt(ln 2 / k) and sqrt((3 ln 2 - 1) / k) on the analytic branch), CPC (HIP and ICON confidence bounds, error tables) and theta/compact theta (clamping holds for every value of the binomial approximation; exact mode equals the retained count), and that a sampling theta sketch that was offered data is not reported empty. Bias, empirical RSE, coverage rates and the values of the fitted tables are statistical and NOT claimed.",
          "Transcendental functions and the binomial approximations are over-approximated by arbitrary values (sound for the universally quantified ordering); float arithmetic is CBMC's IEEE-754 model; one concrete (lg_k, sigma) per float harness.", "DESIGN.md section 4 C01"),
- "C02": ("Quick tier: one update step of every HLL representation (list, 8-slot hash set, Array6, Array8, aux map incl. growth; Array4 with the exception slots concrete per instance - none, one, two colliding - and symbolic nibbles, cur_min and values; one cur_min shift with one exception) from an arbitrary representation-invariant-satisfying state at lg_k = 4, the mode life cycle list -> set / array for every lg_k, coupon derivation and packing laws, estimator update, each compared with the per-slot-maximum / coupon-set model for all symbolic inputs within the bounds. Thorough tier adds the 16-slot set, every aux-table layout, shifts with 0 / 2 exceptions and the list -> array / set promotions over histories of 8 symbolic coupons (10-14 GB, > 10 min each; reported UNEXPLORED when they exceed the caps).",
+ "C02": ("Quick tier: one update step of every HLL representation (list, 8-slot hash set, Array6, Array8, aux map incl. growth; Array4 with the exception slots concrete per instance - none, one, two colliding - and symbolic nibbles, cur_min and values; one cur_min shift with one exception) from an arbitrary representation-invariant-satisfying state at lg_k = 4, the mode life cycle list -> set / array for every lg_k, the three promotion functions in contract form (list -> set, set -> larger set, container -> Hll4/6/8 array hand every coupon of an arbitrary 8-slot source exactly once, unaltered, to the new representation's update(), which is a recorder there), coupon derivation and packing laws, estimator update, each compared with the per-slot-maximum / coupon-set model for all symbolic inputs within the bounds. Thorough tier adds the 16-slot set, every aux-table layout, shifts with 0 / 2 exceptions and the list -> array / set promotions over histories of 8 symbolic coupons (10-14 GB, > 10 min each; reported UNEXPLORED when they exceed the caps).",
          "Representation invariants written in the harnesses are assumed inductive (each step re-establishes them); register state at lg_k = 4 only, index arithmetic for all lg_k; HipEstimator::update replaced by a call recorder in register-model harnesses.", "DESIGN.md section 4 C02"),
  "C03": ("Quick tier: union kernels (same-lg_k merge, down-sampling merge, cached-value rebuild), the union of one array-mode input (Hll6 / Hll8) with all registers and the out-of-order flag symbolic, reset(), estimator update: compared with the register-wise-maximum model; the adopt-or-merge decision for a coupon-mode input for every pair of lg_k (the union's lg_k never changes). Thorough tier adds two array-mode inputs in both orders, to_sketch for the three target types and a coupon-mode input into an empty union (these need 10-14 GB and more than 10 min each; reported UNEXPLORED when they exceed the caps).",
          "lg_k 2-4 (code is parametric), at most two inputs (longer sequences follow from the model being a commutative idempotent fold - argued, not solved); coupon-mode inputs are decided only in the thorough tier (on this machine: unexplored) - their coupon replay goes through the C02 harnesses; HipEstimator::update / rebuild_cached_values replaced by recorders in register harnesses.", "DESIGN.md section 4 C03"),
